@@ -2,7 +2,10 @@
 (***************************************************************************)
 (* Model of the string conversion API over a structured family of bitmap   *)
 (* values: every union of the blocks of a block map (Lo, Hi), with or      *)
-(* without the infinite tail.  One action per public entry point.  The     *)
+(* without the infinite tail - or, in Mode "ladder", the ladders of the    *)
+(* three formats: one value per (text length 0..TextMax, shape), printed   *)
+(* in the format whose ladder it belongs to, with the buffer lengths       *)
+(* around the text length.  One action per public entry point.  The        *)
 (* property is checked on the model (invariants) and every distinct state  *)
 (* is emitted as a history for replay on the real library.                 *)
 (***************************************************************************)
@@ -12,9 +15,11 @@ CONSTANTS Lo, Hi,      \* block map (sequences): block p = Lo[p]..Hi[p]; the tai
           Steer,       \* set of <<pad, via>>: how the recorder builds the bitmap (representation steering, never judged)
           MaxLen,      \* bound on the history length
           Chain,       \* FALSE: set -> asprintf/sscanf -> one call (exhaustive);  TRUE: free interleaving (simulation)
-          Mode,        \* "full": every call; "light": set -> asprintf -> reparse only (large families)
+          Mode,        \* "full": every call; "light": set -> asprintf -> reparse only (large families);
+                       \* "ladder": the family is the text-length ladder of each format (block map unused)
+          TextMax,     \* ladder only: every text length 0..TextMax the format can produce is covered
           SimPick      \* simulation only: how many values of the family are offered to Set at each step
-VARIABLES reg, txt, steer, known, out, hist     \* txt: the canonical texts of reg (derived, memoised)
+VARIABLES reg, txt, lad, steer, known, out, hist    \* txt: the canonical texts of reg (derived, memoised) in the formats lad
 
 NB == Len(Lo)
 Blocks == 1..NB
@@ -26,44 +31,51 @@ ASSUME /\ Len(Hi) = NB /\ NB >= 1 /\ Lo[1] = 0
 
 ValOf(S, inf) == [fin |-> UNION {Lo[p]..Hi[p] : p \in S} \cup (IF inf THEN TailLo..(Width - 1) ELSE {}),
                   inf |-> inf, n |-> Width]
+\* <<format, text length, value>>, in ladder mode only.  TLC evaluates a constant definition once, but once more for
+\* every other constant definition that mentions it: LadderSet is the only constant, the rest is evaluated in the states.
+LadderSet == IF Mode = "ladder" THEN UNION {{<<f, p[1], p[3]>> : p \in Ladder(f, TextMax)} : f \in Fmts} ELSE {}
+LadderFmts(v) == {q[1] : q \in {q \in LadderSet : q[3] = v}}
 Family == {ValOf(S, inf) : S \in SUBSET Blocks, inf \in BOOLEAN}
 
-Texts(v) == [f \in Fmts |-> Render(f, v)]
+\* (ladder: a value is printed in the formats whose ladder it belongs to only, the other texts are not needed)
+Texts(v, F) == [f \in Fmts |-> IF f \in F THEN Render(f, v) ELSE ""]
 
-Init == /\ reg = Empty /\ txt = Texts(Empty) /\ steer = <<0, 0>> /\ known = {} /\ out = [op |-> "init"] /\ hist = <<>>
+Init == /\ reg = Empty /\ txt = Texts(Empty, Fmts) /\ lad = Fmts /\ steer = <<0, 0>> /\ known = {} /\ out = [op |-> "init"] /\ hist = <<>>
 
 More == Len(hist) < MaxLen
 
 \* build a bitmap holding v (hwloc_bitmap_set_range and friends)
 Set(v, st) ==
   /\ More /\ (Chain \/ hist = <<>>)
-  /\ reg' = v /\ txt' = Texts(v) /\ steer' = st /\ known' = {}
+  /\ reg' = v /\ steer' = st /\ known' = {}
+  /\ LET F == IF Mode = "ladder" THEN LadderFmts(v) ELSE Fmts IN lad' = F /\ txt' = Texts(v, F)
   /\ out' = [op |-> "set"]
   /\ hist' = Append(hist, [op |-> "set", pad |-> st[1], via |-> st[2], r |-> Ranges(v)])
 
 \* hwloc_bitmap_[list_|taskset_]asprintf
 Asprintf(f) ==
   /\ More /\ hist # <<>> /\ (Chain \/ Len(hist) = 1)
+  /\ f \in lad
   /\ LET full == txt[f] IN out' = [op |-> "asprintf", fmt |-> f, ret |-> Len(full), text |-> full]
   /\ known' = known \cup {f}
   /\ hist' = Append(hist, [op |-> "asprintf", fmt |-> f])
-  /\ UNCHANGED <<reg, txt, steer>>
+  /\ UNCHANGED <<reg, txt, lad, steer>>
 
 \* hwloc_bitmap_[list_|taskset_]snprintf(buf, buflen) for every length up to one more than needed, and a generous one
 Snprintf(f, buflen) ==
-  /\ More /\ f \in known /\ Mode = "full"
+  /\ More /\ f \in known /\ Mode \in {"full", "ladder"}
   /\ LET r == SnprintfDo(txt[f], buflen) IN
        out' = [op |-> "snprintf", fmt |-> f, buflen |-> buflen, ret |-> r.ret, nul |-> r.nul, buf |-> r.buf]
   /\ hist' = Append(hist, [op |-> "snprintf", fmt |-> f, len |-> buflen])
-  /\ UNCHANGED <<reg, txt, steer, known>>
+  /\ UNCHANGED <<reg, txt, lad, steer, known>>
 
 \* ...snprintf(NULL, 0)
 SnprintfNull(f) ==
-  /\ More /\ f \in known /\ Mode = "full"
+  /\ More /\ f \in known /\ Mode \in {"full", "ladder"}
   /\ LET r == SnprintfDo(txt[f], 0) IN
        out' = [op |-> "snprintf0", fmt |-> f, buflen |-> 0, ret |-> r.ret, nul |-> r.nul, buf |-> r.buf]
   /\ hist' = Append(hist, [op |-> "snprintf0", fmt |-> f])
-  /\ UNCHANGED <<reg, txt, steer, known>>
+  /\ UNCHANGED <<reg, txt, lad, steer, known>>
 
 SscanfDo(f, str) == LET p == Parse(f, str, FALSE) IN IF p.ok THEN [ret |-> 0, v |-> p.v] ELSE [ret |-> -1, v |-> Empty]
 \* the register keeps its width when the parsed set is the same set (state identity only)
@@ -75,10 +87,10 @@ Reparse(f) ==
   /\ LET str == txt[f]  r == SscanfDo(f, str) IN
        /\ out' = [op |-> "sscanf", fmt |-> f, str |-> str, ret |-> r.ret, v |-> r.v, was |-> reg]
        /\ reg' = Keep(r.v)
-       /\ txt' = IF Keep(r.v) = reg THEN txt ELSE Texts(r.v)
+       /\ txt' = IF Keep(r.v) = reg THEN txt ELSE Texts(r.v, lad)
   /\ known' = {}
   /\ hist' = Append(hist, [op |-> "reparse", fmt |-> f])
-  /\ UNCHANGED steer
+  /\ UNCHANGED <<lad, steer>>
 
 \* ...sscanf of another string of the documented grammar that denotes the same set
 \* ("canon" is the canonical text, printed by this specification rather than by the library)
@@ -88,13 +100,15 @@ SscanfVariant(f, style) ==
          r == SscanfDo(f, str) IN
        /\ out' = [op |-> "sscanf", fmt |-> f, str |-> str, ret |-> r.ret, v |-> r.v, was |-> reg]
        /\ reg' = Keep(r.v)
-       /\ txt' = IF Keep(r.v) = reg THEN txt ELSE Texts(r.v)
+       /\ txt' = IF Keep(r.v) = reg THEN txt ELSE Texts(r.v, lad)
        /\ hist' = Append(hist, [op |-> "sscanf", fmt |-> f, style |-> style, str |-> str])
   /\ known' = {}
-  /\ UNCHANGED steer
+  /\ UNCHANGED <<lad, steer>>
 
 AllStyles(f) == Styles(f) \cup {"canon"}
-Lens(f) == (0..(Len(txt[f]) + 1)) \cup {Len(txt[f]) + 33}
+\* ladder: the buffer lengths around the text length (one short, exact, one spare) and the smallest ones
+Lens(f) == IF Mode = "ladder" THEN {k \in {0, 1, 2, Len(txt[f]) - 1, Len(txt[f]), Len(txt[f]) + 1, Len(txt[f]) + 2} : k >= 0}
+           ELSE (0..(Len(txt[f]) + 1)) \cup {Len(txt[f]) + 33}
 
 \* Guards are repeated outside the quantifiers so that TLC does not enumerate the family in states where nothing
 \* is enabled.  In simulation TLC generates every successor and evaluates the invariants on all of them before it
@@ -103,22 +117,31 @@ Lens(f) == (0..(Len(txt[f]) + 1)) \cup {Len(txt[f]) + 33}
 \* history is printed when TLC expands the state it actually reached (last disjunct), not from an invariant.
 Pick(k, S) == IF Chain THEN RandomSubset(k, S) ELSE S
 Next == \/ /\ More
-           /\ \/ (Chain \/ hist = <<>>) /\ \E v \in Pick(SimPick, Family), st \in Pick(1, Steer) : Set(v, st)
+           /\ \/ (Chain \/ hist = <<>>) /\ \E v \in Pick(SimPick, IF Mode = "ladder" THEN {q[3] : q \in LadderSet} ELSE Family), st \in Pick(1, Steer) : Set(v, st)
               \/ hist # <<>> /\ \E f \in Fmts :
                     \/ Asprintf(f)
-                    \/ f \in known /\ Mode = "full" /\ \E k \in Pick(2, Lens(f)) : Snprintf(f, k)
+                    \/ f \in known /\ Mode \in {"full", "ladder"} /\ \E k \in Pick(2, Lens(f)) : Snprintf(f, k)
                     \/ SnprintfNull(f)
                     \/ Reparse(f)
                     \/ (Chain \/ Len(hist) = 1) /\ Mode = "full" /\ \E style \in Pick(1, AllStyles(f)) : SscanfVariant(f, style)
-        \/ Chain /\ ~More /\ PrintT(<<"SIM", ToJson(hist)>>) /\ FALSE /\ UNCHANGED <<reg, txt, steer, known, out, hist>>
+        \/ Chain /\ ~More /\ PrintT(<<"SIM", ToJson(hist)>>) /\ FALSE /\ UNCHANGED <<reg, txt, lad, steer, known, out, hist>>
 
-Spec == Init /\ [][Next]_<<reg, txt, steer, known, out, hist>>
+Spec == Init /\ [][Next]_<<reg, txt, lad, steer, known, out, hist>>
 
 View == <<reg, steer, known, out>>
 
 (* ---- the property on the model ---- *)
-TypeOK == ValOK(reg) /\ (out.op = "set" => txt = Texts(reg)) /\ known \subseteq Fmts /\ steer \in Steer \cup {<<0, 0>>}
-Laws == out.op = "set" => RoundTripLaw(reg) /\ (Mode = "full" => VariantLaw(reg))
+\* the ladder is complete (every length the format allows, up to TextMax), and the text of each of its values has the
+\* length it was selected for, is in the output language and parses back
+LadderCovers == hist = <<>> /\ Mode = "ladder" =>
+  \A f \in Fmts : \A L \in LadderNeeds(f, TextMax) : \E q \in LadderSet : q[1] = f /\ q[2] = L
+LadderLaw == \A q \in {q \in LadderSet : q[3] = reg} :
+  LET f == q[1]  p == Parse(f, txt[f], FALSE) IN
+  /\ Len(txt[f]) = q[2]
+  /\ OutOK(f, txt[f], reg)
+  /\ p.ok /\ SameSet(p.v, reg)
+TypeOK == ValOK(reg) /\ LadderCovers /\ (out.op = "set" => txt = Texts(reg, lad)) /\ lad \subseteq Fmts /\ known \subseteq Fmts /\ steer \in Steer \cup {<<0, 0>>}
+Laws == out.op = "set" => IF Mode = "ladder" THEN LadderLaw ELSE RoundTripLaw(reg) /\ (Mode = "full" => VariantLaw(reg))
 CallOK ==
   /\ out.op = "asprintf" => out.ret = Len(out.text) /\ OutOK(out.fmt, out.text, reg)
   /\ out.op \in {"snprintf", "snprintf0"} =>
